@@ -10,8 +10,9 @@ META = {
     "bounds": ["one fully symbolic 112-bit frame (DF, header, 56 MB bits, parity, hex case per digit); infer with mrar "
                "False and True; every isXX predicate explored into a summary formula F_XX(frame) and reused",
                "is50or60: frame symbolic, reference speed / track / altitude symbolic reals"],
-    "outside": ["which of BDS50 / BDS60 is numerically nearest in is50or60 (numpy norm / nanargmin are modelled as 'some "
-                "index or ValueError'); only None-exactly-when-not-both, totality and the result set are decided",
+    "outside": ["the numeric values of the three candidate distances in is50or60 (vector norms, aero conversions and "
+                "sin/cos are uninterpreted); decided are None-exactly-when-not-both, totality, the NaN handling and that "
+                "the label returned belongs to a smallest non-NaN distance",
                 "BDS 6,0 completeness when Mach and IAS are both available on a DF20 carrier (the cross-check goes through "
                 "aero.mach2cas, an uninterpreted function here)",
                 "BDS 4,4 completeness (two candidate temperature decodings)",
@@ -128,6 +129,43 @@ def envelope(fr, reg, df):
     return z3.And(cs)
 
 
+def concrete_5060(c, got):
+    """judge a real is50or60 outcome on concrete inputs: the arbitration (NaN handling, index -> label) is recomputed
+    from the library's own field decoders and aero conversions (numerics trusted, as everywhere in C12)"""
+    import math
+    rc = lambda f, *a: H.real_call(f, *a)
+    msg = c["msg"]
+    is50, is60 = rc("pyModeS.commb.is50", msg), rc("pyModeS.commb.is60", msg)
+    if not (is50[0] == "ret" and is60[0] == "ret" and is50[1] and is60[1]):
+        return got is None
+    val = lambda f: rc(f, msg)[1]
+    h60, m60, i60 = val("pyModeS.commb.hdg60"), val("pyModeS.commb.mach60"), val("pyModeS.commb.ias60")
+    ft, kts = 0.3048, 0.514444
+    if m60 is not None and i60 is not None:
+        ias_ = rc("pyModeS.extra.aero.mach2cas", m60, c["alt"] * ft)[1] / kts
+        if abs(i60 - ias_) > 20:
+            return got == "BDS50"
+    if h60 is None or (m60 is None and i60 is None):
+        return got == "BDS50,BDS60"
+    h50, v50 = val("pyModeS.commb.trk50"), val("pyModeS.commb.gs50")
+    if h50 is None or v50 is None:
+        return got == "BDS50,BDS60"
+
+    def vxy(v, ang):
+        return v * math.sin(math.radians(ang)), v * math.cos(math.radians(ang))
+    cand = [vxy(v50 * kts, h50)]
+    cand.append(vxy(rc("pyModeS.extra.aero.mach2tas", m60, c["alt"] * ft)[1], h60) if m60 is not None else None)
+    cand.append(vxy(rc("pyModeS.extra.aero.cas2tas", i60 * kts, c["alt"] * ft)[1], h60) if i60 is not None else None)
+    mu = vxy(c["spd"] * kts, c["trk"])
+    d = [None if x is None else math.hypot(x[0] - mu[0], x[1] - mu[1]) for x in cand]
+    live = [k for k in range(3) if d[k] is not None and d[k] == d[k]]
+    if not live:
+        return got == "BDS50,BDS60"
+    best = min(d[k] for k in live)
+    labels = ["BDS50", "BDS60", "BDS60"]
+    return got in {labels[k] for k in live if d[k] <= best * (1 + 1e-9) + 1e-9}
+
+
 def run_item(item):
     pm = load_repo()
     stubs.install_cap17_contract(pm)
@@ -228,12 +266,38 @@ def run_item(item):
         from props.cprlib import fval
         conc2 = lambda m: {"msg": fr.concrete(m), "spd": fval(m, spd), "trk": fval(m, trk), "alt": fval(m, alt)}
 
-        def post(kind, v):
+        def post(kind, v, ctx):
             if kind != "ret":
                 return False
             if v is None:
                 return z3.Not(both)
-            return z3.And(both, z3.BoolVal(v in ("BDS50", "BDS60", "BDS50,BDS60")))
+            if v not in ("BDS50", "BDS60", "BDS50,BDS60"):
+                return False
+            if ctx.conc is not None:
+                return concrete_5060(ctx.conc, v)
+            cs = [both]
+            if ctx.conc is None and ctx.path is not None:
+                # the arbitration step: when the three candidate distances (BDS 5,0 vector; BDS 6,0 from Mach; BDS 6,0
+                # from IAS; NaN where the quantity is missing) were formed, the answer is the label of the smallest
+                # non-NaN one, or both labels when all are NaN. The distances are uninterpreted terms: what is decided is
+                # the NaN handling and the index -> label map, not the numerics.
+                arg = [n[1] for n in ctx.path.notes if isinstance(n, tuple) and n and n[0] == "argmin_input"]
+                if arg:
+                    d = arg[-1]
+                    labels = ["BDS50", "BDS60", "BDS60"]
+                    if len(d) != 3:
+                        return False
+                    live = [k for k in range(3) if not (isinstance(d[k], float) and d[k] != d[k])]
+                    if not live:
+                        cs.append(z3.BoolVal(v == "BDS50,BDS60"))
+                    else:
+                        alts = []
+                        for k in live:
+                            tk = SymReal.of(d[k]).t
+                            mins = [tk <= SymReal.of(d[j]).t for j in live if j != k]
+                            alts.append(z3.And(mins + [z3.BoolVal(v == labels[k])]))
+                        cs.append(z3.Or(alts))
+            return z3.And(cs)
         H.decide(item, "is50or60", lambda: pm.bds.is50or60(fr.msg, SymReal(spd), SymReal(trk), SymReal(alt)),
                  lambda c: H.real_call("pyModeS.bds.is50or60", c["msg"], c["spd"], c["trk"], c["alt"]), conc2, post,
                  cmp=lambda a, b: (a is None) == (b is None))
